@@ -121,6 +121,13 @@ func ResourceYAML(r ResSpec) string {
 		return fmt.Sprintf("apiVersion: batch/v1\nkind: Job\nmetadata:\n  name: %s\n%sspec:\n  template:\n    spec:\n      restartPolicy: Never\n      containers:\n      - name: c\n        image: i:v%d\n", r.Name, anno, r.Variant)
 	case "Pod":
 		return fmt.Sprintf("apiVersion: v1\nkind: Pod\nmetadata:\n  name: %s\n%sspec:\n  containers:\n  - name: c\n    image: i:v%d\n", r.Name, anno, r.Variant)
+	case "HPA": // one object served under autoscaling/v1 and autoscaling/v2: variant 1 uses v1, the others v2
+		av := []string{"autoscaling/v1", "autoscaling/v2", "autoscaling/v2"}[min(r.Variant, 3)-1]
+		d := fmt.Sprintf("  maxReplicas: %d\n", 2+min(r.Variant, 2))
+		if r.Variant != 3 {
+			d += "  minReplicas: 2\n"
+		}
+		return fmt.Sprintf("apiVersion: %s\nkind: HorizontalPodAutoscaler\nmetadata:\n  name: %s\n%sspec:\n%s  scaleTargetRef:\n    apiVersion: apps/v1\n    kind: Deployment\n    name: d\n", av, r.Name, anno, d)
 	case "ClusterRole": // cluster-scoped (store path /apis/rbac.authorization.k8s.io/v1/clusterroles/<name>)
 		verbs := []string{`["get"]`, `["get", "list"]`}[min(r.Variant, 2)-1]
 		return fmt.Sprintf("apiVersion: rbac.authorization.k8s.io/v1\nkind: ClusterRole\nmetadata:\n  name: %s\n%srules:\n- apiGroups: [\"\"]\n  resources: [\"pods\"]\n  verbs: %s\n", r.Name, anno, verbs)
